@@ -2,6 +2,7 @@
 (per-evaluation structural clauses)."""
 
 import ast
+import re
 
 from .. import cfg as C
 from .. import norm as N
@@ -104,6 +105,25 @@ def check(ctx):
     dnode, dcall = deletes[0]
     # ---- C20.1 -----------------------------------------------------------
     res = Res(func)
+    # the locals by what they are bound to, not by their spelling
+    dloop0 = K.enclosing_for(graph, cnode)
+    nvar, cvar = 'name', 'conf'
+    if dloop0 is not None and isinstance(dloop0.ast.target, ast.Tuple) and \
+            len(dloop0.ast.target.elts) == 2:
+        nvar, cvar = [N.txt(e) for e in dloop0.ast.target.elts]
+
+    def role(pred, default):
+        for lname, vals in sorted(defs.items()):
+            if any(pred(N.txt(v)) for v in vals):
+                return lname
+        return default
+    tvar = role(lambda t: t == "%s['count']" % cvar, 'count')
+    avar = role(lambda t: t == "%s['available']" % cvar, 'available')
+    curvar = role(lambda t: t.startswith('len(') and
+                  '.get(%s' % nvar in t, 'current_count')
+    nowvar = role(lambda t: t == 'time.time()', 'now')
+    svar = role(lambda t: t == "state['suspended']", 'suspended')
+    cav = "%s['available']" % cvar
     url = K.rexpr(func, ccall.args[1])
     if isinstance(url, ast.Name):
         url = res(url)
@@ -131,7 +151,7 @@ def check(ctx):
     decs = [n for n in graph.nodes if n.kind == 'stmt' and
             isinstance(n.ast, ast.AugAssign) and
             isinstance(n.ast.op, ast.Sub) and
-            N.txt(n.ast.target) == "conf['available']"]
+            N.txt(n.ast.target) == cav]
     ctx.ob('C20.1', func, decs[0] if decs else None,
            len(decs) == 1 and N.txt(decs[0].ast.value) == asked,
            'the amount subtracted from the budget is that same variable',
@@ -143,29 +163,29 @@ def check(ctx):
             isinstance(adef.args[0], ast.Call) and \
             K.callee_text(adef.args[0]) == 'min':
         ops = sorted(res.txt(a) for a in adef.args[0].args)
-        ok = ops == sorted([res.txt(res.parse('count - current_count')),
-                            res.txt(res.parse('math.floor(available)'))])
+        ok = ops == sorted([res.txt(res.parse('%s - %s' % (tvar, curvar))),
+                            res.txt(res.parse('math.floor(%s)' % avar))])
         if not ok and len(adef.args[0].args) == 2:
             # the head-room may be spelled in any linear form
             args = adef.args[0].args
             for need, avail in (args, args[::-1]):
                 ok = ok or (
                     res.lin(need) == res.lin(res.parse(
-                        'count - current_count')) and
+                        '%s - %s' % (tvar, curvar))) and
                     res.txt(avail) == res.txt(res.parse(
-                        'math.floor(available)')))
+                        'math.floor(%s)' % avar)))
     ctx.ob('C20.1', func, adef, ok,
            'allowed = int(min(needed, floor(available))): %s' % detail,
            construct='allowed definition')
     # what the decision reads: target and budget from the monitor state,
     # current from the scheduled listing of that application
-    target = res.txt(res.parse('count'))
-    current = res.txt(res.parse('current_count'))
-    avdefs = [N.txt(v) for v in defs.get('available', [])]
-    ctx.ob('C20.1', func, None, "conf['available']" in avdefs and
-           target == "conf['count']" and 'len(' in (current or '') and
-           '.get(name, [])' in (current or '') and
-           ('grouped' in current or "state['scheduled']" in current),
+    target = res.txt(res.parse(tvar))
+    current = res.txt(res.parse(curvar))
+    avdefs = [N.txt(v) for v in defs.get(avar, [])]
+    ctx.ob('C20.1', func, None, cav in avdefs and
+           target == "%s['count']" % cvar and 'len(' in (current or '') and
+           '.get(%s, [])' % nvar in (current or '') and
+           "state['scheduled']" in current,
            'available / count / current are read from the monitor state '
            'and the scheduled listing (count=%s current=%s)' % (target,
                                                               current),
@@ -187,10 +207,16 @@ def check(ctx):
     incs = [n for n in graph.nodes if n.kind == 'stmt' and
             N.txt(getattr(n.ast, 'targets', [None])[0]
                   if isinstance(n.ast, ast.Assign) else
-                  getattr(n.ast, 'target', None)) == "conf['available']"
+                  getattr(n.ast, 'target', None)).endswith("['available']")
             and n not in decs]
     ctx.require(incs, 'refill of the budget')
     for node in incs:
+        # the refill loop has its own (name, record) pair
+        iloop = K.enclosing_for(graph, node)
+        icv = cvar
+        if iloop is not None and isinstance(iloop.ast.target, ast.Tuple) \
+                and len(iloop.ast.target.elts) == 2:
+            icv = N.txt(iloop.ast.target.elts[1])
         val = res(node.ast.value)
         ok = isinstance(node.ast, ast.Assign) and isinstance(
             val, ast.Call) and K.callee_text(val) == 'min' and \
@@ -204,12 +230,12 @@ def check(ctx):
                                                              ast.Add):
                     sides = [arg.left, arg.right]
                     for cur, other in (sides, sides[::-1]):
-                        if N.txt(cur) == "conf['available']":
+                        if N.txt(cur) == "%s['available']" % icv:
                             sums.append(arg)
                             deltas.append(other)
                 else:
                     try:
-                        if N.linear(arg) == {"conf['count']": 2}:
+                        if N.linear(arg) == {"%s['count']" % icv: 2}:
                             caps.append(arg)
                     except Exception:     # pylint: disable=broad-except
                         pass
@@ -227,9 +253,9 @@ def check(ctx):
             for rate, span in (sides, sides[::-1]):
                 try:
                     okd = okd or (
-                        N.txt(rate) == "conf['rate']" and
+                        N.txt(rate) == "%s['rate']" % icv and
                         N.linear(span) == N.linear(res.parse(
-                            "now - conf['last_update']")))
+                            "%s - %s['last_update']" % (nowvar, icv))))
                 except Exception:         # pylint: disable=broad-except
                     pass
         ctx.ob('C20.3', func, node, okd,
@@ -251,7 +277,9 @@ def check(ctx):
     ires = Res(init[0])
     fields = {k.value: ires(v)
               for k, v in zip(init[1].keys, init[1].values)}
-    target_txt = ires.txt(ires.parse('count'))
+    # the target as stored in the new record (whatever local holds it)
+    target_txt = N.txt(fields.get('count')) if fields.get('count') \
+        is not None else ires.txt(ires.parse('count'))
 
     def factor(expr, over=None):
         """coefficient c of c * count (/ over)."""
@@ -270,7 +298,7 @@ def check(ctx):
     ctx.ob('C20.3', init[0], init[1],
            factor(fields.get('available')) == 2.0 and
            factor(fields.get('rate'), '_INTERVAL') == 2.0 and
-           N.txt(fields.get('count')) == target_txt,
+           "['count']" in (target_txt or ''),
            'initial budget = 2 * count and rate = 2 * count / interval '
            '(twice the target per hour): available=%s rate=%s' % (
                N.txt(fields.get('available')), N.txt(fields.get('rate'))),
@@ -297,7 +325,10 @@ def check(ctx):
                 len(atom.key[2]) != 2:
             return None
         terms = [t for t, _c in atom.key[2]]
-        names = [t for t in terms if t.endswith('policy')]
+        # the policy local: bound to <record>.get('policy') (possibly
+        # defaulted afterwards)
+        names = [t for t in terms if t.endswith('policy') or any(
+            ".get('policy')" in N.txt(v) for v in defs.get(t, []))]
         lits = [t for t in terms if t.startswith("'")]
         if len(names) == 1 and len(lits) == 1:
             return lits[0].strip("'")
@@ -311,7 +342,7 @@ def check(ctx):
         ok = False
 
         lin = res.lin
-        surplus = res.lin(res.parse('current_count - count'))
+        surplus = res.lin(res.parse('%s - %s' % (curvar, tvar)))
         if isinstance(sl, ast.Slice) and sl.step is None:
             if policy == 'fifo':
                 ok = sl.lower is None and sl.upper is not None and \
@@ -321,7 +352,8 @@ def check(ctx):
                     lin(sl.lower) == {k: -v for k, v in surplus.items()}
         seen.add(policy)
         ctx.ob('C20.4', func, node, ok and
-               N.txt(node.ast.value.value) == 'grouped[name]',
+               res.txt(node.ast.value.value).endswith(
+                   "state['scheduled'])[%s]" % nvar),
                "policy %r deletes the %s of length current - target: %s" % (
                    policy, 'prefix (oldest)' if policy == 'fifo' else
                    'suffix (newest)', N.txt(node.ast.value)),
@@ -343,17 +375,17 @@ def check(ctx):
            construct='unknown policy')
     sw = [f for f in mod.live_functions() if f.name == '_scheduled_watch']
     ctx.require(sw, '_scheduled_watch')
-    src = ast.unparse(sw[0].node)
+    groupbys = [c for c in K.calls(sw[0].node)
+                if K.callee_text(c) == 'itertools.groupby' and c.args]
     ctx.ob('C20.4', sw[0], None,
-           'scheduled = sorted(children)' in src and
-           'itertools.groupby(scheduled' in src,
+           bool(groupbys) and all(
+               K.rtxt(sw[0], c.args[0]) == 'sorted(%s)' % sw[0].params()[0]
+               for c in groupbys),
            'per-application lists are built from an ascending sort',
            construct='instance list order')
     # ---- C20.5 -----------------------------------------------------------
-    more = N.cmp_atom(ast.Name(id='count'), '>',
-                      ast.Name(id='current_count'))
-    less = N.cmp_atom(ast.Name(id='count'), '<',
-                      ast.Name(id='current_count'))
+    more = N.cmp_atom(ast.Name(id=tvar), '>', ast.Name(id=curvar))
+    less = N.cmp_atom(ast.Name(id=tvar), '<', ast.Name(id=curvar))
     ctx.ob('C20.5', func, cnode, more in facts[cnode],
            'instances are created only when target > current')
     ctx.ob('C20.5', func, dnode, less in facts[dnode],
@@ -373,8 +405,8 @@ def check(ctx):
         ok = K.guarded_by(graph, node, lambda e: any(
             a.key[0] == 'cmp' and a.key[1] in ('<=',) and
             sorted(t for t, _c in a.key[2]) == sorted(
-                ['now', 'suspended.get(name, 0)']) and
-            dict(a.key[2])['now'] < 0
+                [nowvar, '%s.get(%s, 0)' % (svar, nvar)]) and
+            dict(a.key[2])[nowvar] < 0
             for a in nz.facts_of_edge(e)), start=lp)
         ctx.ob('C20.6', func, node, ok,
                'the %s request is issued only for a monitor that is not '
@@ -387,7 +419,7 @@ def check(ctx):
             for hdl in sub.handlers:
                 name = N.txt(hdl.type) if hdl.type else 'bare'
                 sets = any(isinstance(s, ast.Assign) and
-                           N.txt(s.targets[0]) == 'suspended[name]'
+                           N.txt(s.targets[0]) == '%s[%s]' % (svar, nvar)
                            and '_DELAY_INTERVAL' in K.rtxt(func, s.value)
                            for s in K.walk_no_nested(hdl))
                 # ... or through a local closure called with the monitor's
@@ -396,7 +428,7 @@ def check(ctx):
                     if isinstance(inner, ast.Call) and \
                             isinstance(inner.func, ast.Name) and \
                             inner.func.id in func.nested() and inner.args \
-                            and N.txt(inner.args[0]) == 'name':
+                            and N.txt(inner.args[0]) == nvar:
                         helper = func.nested()[inner.func.id]
                         hparams = helper.params()
                         body = K._fn_body(helper.raw)
@@ -408,7 +440,7 @@ def check(ctx):
                         if hparams and any(
                                 isinstance(s, ast.Assign) and
                                 N.txt(s.targets[0]) ==
-                                'suspended[%s]' % hparams[0] and
+                                '%s[%s]' % (svar, hparams[0]) and
                                 '_DELAY_INTERVAL' in N.txt(
                                     N.subst(s.value, henv))
                                 for s in body):
@@ -427,13 +459,16 @@ def check(ctx):
     wgraph = ctx.cfg(wf)
 
     def known(expr):
-        return N.txt(expr) in ("six.viewkeys(state['monitors'])",
-                               "state['monitors'].keys()",
-                               "set(state['monitors'])",
-                               "state['monitors']")
+        # the keys of the shared state's monitor table (the state local of
+        # the enclosing routine, whatever it is called)
+        return re.match(r"^(six\.viewkeys\(\w+\['monitors'\]\)|"
+                        r"\w+\['monitors'\]\.keys\(\)|"
+                        r"set\(\w+\['monitors'\]\)|\w+\['monitors'\])$",
+                        N.txt(expr)) is not None
 
     def listed(expr):
-        return N.txt(expr) in ('children', 'set(children)')
+        par = wf.params()[0]
+        return N.txt(expr) in (par, 'set(%s)' % par)
     sx = K.FlowSetExpr(wf, wgraph, {'known': known, 'listed': listed})
     for loop in [n for n in wgraph.nodes if n.kind == 'for']:
         body = K.loop_body_nodes(loop)
